@@ -276,12 +276,201 @@ def check(case, rec=None):
     return fails
 
 
+# ------------------------------------------------------------------ files on disk -> properties.main -> merged peaks
+
+KERNEL = np.array([[1, 2, 1], [2, 4, 2], [1, 2, 1]])
+
+
+@st.composite
+def pipecases(draw):
+    """a small scanning data set: 2-4 scan rows x 3-8 frames of a 32 x 32 detector holding 3 x 3 blobs (one maximum each,
+    never touching on a frame); rotation forwards, backwards (zig-zag rows), from -180 or across 360; some frames empty"""
+    return dict(nrows=draw(st.integers(2, 4)), nframes=draw(st.integers(3, 8)), seed=draw(st.integers(0, 2 ** 31 - 1)),
+                sweep=draw(st.sampled_from(["forward", "zigzag", "zigzag", "from-180", "across360", "backward"])),
+                nspots=draw(st.integers(2, 7)), empty=draw(st.sampled_from([0.0, 0.2, 0.4])),
+                nproc=draw(st.sampled_from([1, 2, 2])))
+
+
+def build_pipe(case):
+    rng = np.random.RandomState(case["seed"] % (2 ** 32))
+    nrows, nframes = case["nrows"], case["nframes"]
+    w = np.arange(nframes) * 1.0
+    start = {"from-180": -180.0 + rng.randint(0, 3), "across360": 360.0 - nframes // 2}.get(case["sweep"], 10.0 * rng.randint(0, 30))
+    omega = np.empty((nrows, nframes))
+    for k in range(nrows):
+        back = case["sweep"] == "backward" or (case["sweep"] == "zigzag" and k % 2 == 1)
+        omega[k] = (w[::-1] if back else w) + start + 0.01 * k
+    dty = np.arange(nrows) * 0.1
+    empty = rng.random_sample((nrows, nframes)) < case["empty"]
+    # spots: a detector place and a set of (row, rotation position) cells where it shows, drifting by at most one pixel
+    blobs = []
+    used = {}
+    for _ in range(case["nspots"]):
+        r0, c0 = int(rng.randint(0, 29)), int(rng.randint(0, 29))
+        k0, io0 = int(rng.randint(nrows)), int(rng.randint(nframes))
+        for k in range(max(0, k0 - rng.randint(0, 2)), min(nrows, k0 + rng.randint(1, 3))):
+            for io in range(max(0, io0 - rng.randint(0, 2)), min(nframes, io0 + rng.randint(1, 3))):
+                f = int(np.nonzero(np.round(omega[k] - start - 0.01 * k) == io)[0][0])
+                if empty[k, f]:
+                    continue
+                rr, cc = r0 + int(rng.randint(-1, 2)), c0 + int(rng.randint(-1, 2))
+                rr, cc = min(max(rr, 0), 29), min(max(cc, 0), 29)
+                # keep blobs on one frame apart (no shared or touching pixels)
+                if any(abs(rr - a) < 5 and abs(cc - b) < 5 for a, b in used.get((k, f), [])):
+                    continue
+                used.setdefault((k, f), []).append((rr, cc))
+                blobs.append((k, f, rr, cc, int(rng.randint(3, 40))))
+    return omega, dty, blobs
+
+
+def check_pipe(case, rec=None):
+    import os, io, contextlib, shutil, h5py
+    from ImageD11.sinograms import dataset as dsmod, properties
+    omega, dty, blobs = build_pipe(case)
+    nrows, nframes = omega.shape
+    if len(blobs) < 2:
+        return []
+    d = os.path.join(os.environ.get("VERIF_TMP", "."), "c15_pipe_%d" % os.getpid())
+    shutil.rmtree(d, ignore_errors=True)
+    os.makedirs(d)
+    fails = []
+
+    def px(b):
+        rr, cc = np.mgrid[b[2]:b[2] + 3, b[3]:b[3] + 3]
+        return rr.ravel(), cc.ravel(), (KERNEL * b[4]).ravel()
+    try:
+        spname = os.path.join(d, "sparse.h5")
+        with h5py.File(spname, "w") as h:
+            for k in range(nrows):
+                g = h.create_group("%d.1" % (k + 1))
+                g.attrs["nframes"] = nframes
+                g.attrs["shape0"] = 32
+                g.attrs["shape1"] = 32
+                g.attrs["itype"] = "uint16"
+                rows, cols, vals, nnz = [np.zeros(0, int)], [np.zeros(0, int)], [np.zeros(0)], []
+                for f in range(nframes):
+                    pp = [px(b) for b in blobs if b[0] == k and b[1] == f]
+                    if pp:
+                        r = np.concatenate([q[0] for q in pp])
+                        c = np.concatenate([q[1] for q in pp])
+                        v = np.concatenate([q[2] for q in pp])
+                        o = np.lexsort((c, r))
+                        rows.append(r[o]); cols.append(c[o]); vals.append(v[o])
+                        nnz.append(len(r))
+                    else:
+                        nnz.append(0)
+                g["nnz"] = np.array(nnz, np.uint32)
+                g["row"] = np.concatenate(rows).astype(np.uint16)
+                g["col"] = np.concatenate(cols).astype(np.uint16)
+                g["intensity"] = np.concatenate(vals).astype(np.float32)
+                g["measurement/rot_center"] = omega[k].astype(float)
+                g["measurement/dty"] = np.full(nframes, float(dty[k]))
+                g["instrument/positioners/dty"] = float(dty[k])
+
+        def run():
+            ds = dsmod.DataSet(dataroot=d, analysisroot=d, sample="s", dset="c15")
+            ds.import_from_sparse(spname)
+            if not os.path.exists(ds.analysispath):
+                os.makedirs(ds.analysispath)
+            ds.sparsefile = spname
+            ds.save()
+            properties.main(ds.dsfile, options={"nproc": case["nproc"]})
+            ds = dsmod.load(ds.dsfile)
+            tbl = ds.peaks_table
+            return ds, tbl, tbl.pk2d(ds.omega, ds.dty), tbl.pk2dmerge(ds.omega, ds.dty)
+        with contextlib.redirect_stdout(io.StringIO()), contextlib.redirect_stderr(io.StringIO()):
+            ok, res = guard(run)
+        if not ok:
+            return [exc_failure("sinograms.properties.main / peaks_table", res)]
+        ds, tbl, p2, p4 = res
+        glabel = np.asarray(tbl.glabel)
+        frm = np.asarray(tbl.pk_props[4])
+        if len(glabel) != len(blobs):
+            return [fail("pipeline", "%d 2-D peaks in the table, %d blobs written" % (len(glabel), len(blobs)),
+                         what="count")]
+        which = []
+        for (k, f, r0, c0, amp) in blobs:
+            m = (frm == k * nframes + f) & (np.abs(p2["s_raw"] - (r0 + 1)) < 1e-6) & (np.abs(p2["f_raw"] - (c0 + 1)) < 1e-6)
+            if m.sum() != 1:
+                return [fail("pipeline", "blob (row %d, frame %d, at %d,%d) is not found exactly once among the 2-D "
+                             "peaks" % (k, f, r0, c0), what="2d")]
+            which.append(int(np.argmax(m)))
+        got = glabel[which]
+        # ---- oracle: blobs sharing a pixel on frames adjacent in the rotation of one row, or at the same angle
+        #      (mod 360, within 0.051 degrees) of consecutive rows, belong together
+        n = len(blobs)
+        pixsets = [set(zip(*px(b)[:2])) for b in blobs]
+        dsu = oracles.DSU(n)
+
+        def link(fa, fb):
+            for a in range(n):
+                if blobs[a][:2] == fa:
+                    for b in range(n):
+                        if blobs[b][:2] == fb and pixsets[a] & pixsets[b]:
+                            dsu.union(a, b)
+        for k in range(nrows):
+            oo = np.argsort(omega[k])
+            for a, b in zip(oo[:-1], oo[1:]):
+                link((k, int(a)), (k, int(b)))
+            if k > 0:
+                for a in range(nframes):
+                    dd = np.abs(omega[k - 1] % 360 - omega[k, a] % 360)
+                    b = int(np.argmin(dd))
+                    if dd[b] <= 0.051:
+                        link((k, a), (k - 1, b))
+        roots = [dsu.find(a) for a in range(n)]
+        ncomp = len(set(roots))
+        pairs = {}
+        for a in range(n):
+            pairs.setdefault(roots[a], set()).add(int(got[a]))
+        if tbl.nlabel != ncomp or sorted(set(got.tolist())) != list(range(ncomp)) or \
+                any(len(v) != 1 for v in pairs.values()):
+            fails.append(fail("pipeline", "%s rotation, %d rows x %d frames, %d blobs (nproc %d): %d merged peaks with "
+                              "labels %s, the overlap graph of the written blobs has %d components" %
+                              (case["sweep"], nrows, nframes, n, case["nproc"], tbl.nlabel,
+                               sorted(set(got.tolist()))[:12], ncomp), what="labels"))
+        else:
+            for r in sorted(set(roots)):
+                mem = [a for a in range(n) if roots[a] == r]
+                lab = int(got[mem[0]])
+                npx = 9 * len(mem)
+                sI = srI = scI = soI = syI = 0.0
+                for a in mem:
+                    k, f, r0, c0, amp = blobs[a]
+                    rr, cc, vv = px(blobs[a])
+                    sI += vv.sum(); srI += (vv * rr).sum(); scI += (vv * cc).sum()
+                    soI += vv.sum() * omega[k, f]; syI += vv.sum() * dty[k]
+                exp = {"Number_of_pixels": npx, "sum_intensity": sI, "npk2d": len(mem), "s_raw": srI / sI,
+                       "f_raw": scI / sI, "omega": soI / sI, "dty": syI / sI}
+                for name, val in exp.items():
+                    if abs(p4[name][lab] - val) > 1e-9 * max(1.0, abs(val)):
+                        fails.append(fail("pipeline", "merged peak %d: %s = %.9g, members give %.9g" %
+                                          (lab, name, p4[name][lab], val), what="merge"))
+                        break
+                if fails:
+                    break
+        if rec is not None:
+            big = max(collections_counter(roots).values())
+            rec.case(case, big >= 3, ["pipeline", "sweep:" + case["sweep"]] + (["pipeline:empty_frames"] if case["empty"] else []))
+    finally:
+        shutil.rmtree(d, ignore_errors=True)
+    return fails
+
+
+def collections_counter(xs):
+    import collections
+    return collections.Counter(xs)
+
+
 def run_shard(rec):
     quick = rec.tier == "quick"
     hyp_run(rec, "graphs", cases(20000), lambda c: check(c, rec), max_examples=60 if quick else 600)
+    hyp_run(rec, "pipeline", pipecases(), lambda c: check_pipe(c, rec), max_examples=3 if quick else 25, shrink=False)
     if not quick:
         hyp_run(rec, "graphs_large", cases(1000000), lambda c: check(c, rec), max_examples=6, shrink=False)
 
 
 def replay(sub, case, rec):
+    if sub == "pipeline":
+        return check_pipe(case, rec)
     return check(case, rec)
